@@ -26,9 +26,9 @@ pub fn sub_call_or_assignment_p() -> impl Parser<StringView, Output = Statement,
                             Statement::assignment(name_expr.clone(), right_side_expr)
                         })
                         .boxed()
-                } else if property::is_qualified(&name_expr) {
-                    // a left-side qualified variable can only be assigned to,
-                    // i.e. SUBs can't be qualified
+                } else if property::is_qualified(&name_expr) || !can_be_sub_name(&name_expr) {
+                    // a left-side qualified variable, or a property of an array element
+                    // such as A(1).B, can only be assigned to, i.e. it can't be a SUB
                     err_supplier(|| ParserError::expected("=").to_fatal()).boxed()
                 } else {
                     // it's a sub call
@@ -72,6 +72,19 @@ fn expr_to_bare_name_args(name_expr: Expression) -> (BareName, Option<Expression
         // only possible if A.B is a sub, if left_name_expr contains a Function, abort
         Expression::Property(_, _, _) => (fold_to_bare_name(name_expr), None),
         _ => panic!("Unexpected name expression"),
+    }
+}
+
+/// Checks if the name expression can be the name of a sub:
+/// a plain name, a name with arguments in parenthesis, or names joined by dots.
+fn can_be_sub_name(name_expr: &Expression) -> bool {
+    match name_expr {
+        Expression::FunctionCall(_, _) | Expression::Variable(_, _) => true,
+        Expression::Property(boxed_left_side, _, _) => matches!(
+            boxed_left_side.as_ref(),
+            Expression::Variable(_, _) | Expression::Property(_, _, _)
+        ) && can_be_sub_name(boxed_left_side),
+        _ => false,
     }
 }
 
